@@ -6,5 +6,5 @@ CONSTANTS
   IterN = 3
   MaxOvl = 3
   MaxOps = 30
-  Kinds <- KindsAll
+  Kinds <- KindsAllF
 CHECK_DEADLOCK FALSE
